@@ -196,8 +196,14 @@ func ufAxioms(s *Script) []string {
 	var out []string
 	// freshly allocated memory is zero: reads of the initial arrays at regions allocated
 	// during the execution (region id > 0) give the zero value
+	otherArrays := false
 	for _, d := range s.decls {
-		if !strings.HasPrefix(d, "(declare-const |mem_") || !strings.Contains(d, "@0| ") {
+		if strings.HasPrefix(d, "(declare-const mem_") {
+			otherArrays = true // arrays introduced by bulk copies / havoc: reads may reach @0 arrays only through their axioms
+		}
+	}
+	for _, d := range s.decls {
+		if !otherArrays || !strings.HasPrefix(d, "(declare-const |mem_") || !strings.Contains(d, "@0| ") {
 			continue
 		}
 		parts := strings.SplitN(strings.TrimSuffix(strings.TrimPrefix(d, "(declare-const "), ")"), " ", 2)
